@@ -506,6 +506,7 @@ def resolve_same_automaton(kind, seed, n_pairs, backend='cudd'):
                                   base=('plain' if pair_no % 2 == 0 else 'default-' + kind))
                 if aut is None:
                     aut = fresh
+                    set_holds, set_goals = list(aut.win['<>[]']), list(aut.win['[]<>'])
                 elif round_ == 1:
                     # same predicates, only the mode attributes change
                     old_mode = (aut.moore, aut.plus_one)
@@ -516,8 +517,12 @@ def resolve_same_automaton(kind, seed, n_pairs, backend='cudd'):
                     cp = lambda u: fresh.bdd.copy(u, aut.bdd)
                     aut.action['env'], aut.action['sys'] = cp(fresh.action['env']), cp(fresh.action['sys'])
                     aut.init['env'], aut.init['sys'] = cp(fresh.init['env']), cp(fresh.init['sys'])
-                    aut.win['<>[]'] = [cp(u) for u in fresh.win['<>[]']]
-                    aut.win['[]<>'] = [cp(u) for u in fresh.win['[]<>']]
+                    if pair_no % 3 != 1:
+                        aut.win['<>[]'] = [cp(u) for u in fresh.win['<>[]']]
+                        aut.win['[]<>'] = [cp(u) for u in fresh.win['[]<>']]
+                        set_holds, set_goals = list(aut.win['<>[]']), list(aut.win['[]<>'])
+                    # else: only the actions change, the caller's liveness lists stay
+                    # the very same objects as in the earlier solve
                     aut.moore, aut.plus_one, aut.qinit = moore, plus_one, qinit
                 n += 1
 
@@ -532,8 +537,9 @@ def resolve_same_automaton(kind, seed, n_pairs, backend='cudd'):
                 gm_ = explicit.Game(len(xb), len(yb), 0, _tt(aut, aut.action['env'], base),
                                     _tt(aut, aut.action['sys'], base), moore, plus_one)
                 st = xb + yb
-                hs = [_tt(aut, h, st) for h in aut.win['<>[]']]
-                gl = [_tt(aut, g, st) for g in aut.win['[]<>']]
+                # the liveness predicates AS THE CALLER SET THEM (the solvers only read them)
+                hs = [_tt(aut, h, st) for h in set_holds]
+                gl = [_tt(aut, g, st) for g in set_goals]
                 try:
                     with contextlib.redirect_stdout(io.StringIO()):
                         if kind == 'streett':
